@@ -36,6 +36,22 @@ func init() {
 		ec.noteFailure(True)
 		return id
 	}
+	// parse.NewInput(s): a fresh input over exactly the text s, at offset 0
+	stdModels["github.com/a-h/parse.NewInput"] = func(ec *evalCtx, call *ast.CallExpr, recv Value, args []Value) Value {
+		v := ec.e().freshValue(ec.st, "parse.NewInput", ec.info.TypeOf(call), false)
+		p, ok := v.(*PtrV)
+		if !ok {
+			panic(unsupported("parse.NewInput result %T", v))
+		}
+		sv, ok := ec.st.heap[p.Obj].(*StructV)
+		if !ok || sv.F["s"] == nil {
+			panic(unsupported("parse.Input value without fields"))
+		}
+		ec.st.heap[p.Obj] = sv.With("s", scalar(args[0])).With("charIndex", Int(0))
+		p.Nil = False
+		ec.e().trusted["github.com/a-h/parse.NewInput (a new input over exactly the given text, at offset 0)"] = true
+		return p
+	}
 	stdModels[P+"Index"] = func(ec *evalCtx, call *ast.CallExpr, recv Value, args []Value) Value {
 		_, sv := obj(ec, recv)
 		return sv.F["charIndex"]
